@@ -26,10 +26,14 @@ type execCase struct {
 }
 
 func newExecCase(r *rand.Rand, so gen.SchemaOpts, do gen.DocOpts) *execCase {
+	return newExecCaseG(r, so, do, gen.GraphOpts{})
+}
+
+func newExecCaseG(r *rand.Rand, so gen.SchemaOpts, do gen.DocOpts, gopt gen.GraphOpts) *execCase {
 	c := &execCase{}
 	c.S = gen.ExecSchema(r, so)
 	c.SDL = c.S.SDL(model.SDLOpts{})
-	c.G = gen.Graph(r, c.S, gen.GraphOpts{})
+	c.G = gen.Graph(r, c.S, gopt)
 	c.DC = gen.Doc(r, c.S, do)
 	c.Layout = r.Intn(model.LayoutCount)
 	c.Text = c.DC.Doc.Print(model.LayoutN(c.Layout))
@@ -87,8 +91,8 @@ func runC01(c *run.Ctx) {
 		kind := back.Kinds[i%len(back.Kinds)]
 		refl := kind == "reflect" || kind == "mixed-reflect"
 		// reflection fields cannot observe arguments: no echo fields in schemas served by reflection
-		ec := newExecCase(r, gen.SchemaOpts{Args: !refl, Mutation: true},
-			gen.DocOpts{Frags: true, Dirs: true, Vars: true, Aliases: true, Mutation: true, Depth: 2 + r.Intn(3)})
+		ec := newExecCaseG(r, gen.SchemaOpts{Args: !refl, Mutation: true},
+			gen.DocOpts{Frags: true, Dirs: true, Vars: true, Aliases: true, Mutation: true, Depth: 2 + r.Intn(3)}, gen.GraphOpts{TypedNil: 4})
 		if refl && !back.ReflectFriendly(ec.S) {
 			kind = "iface"
 		}
